@@ -51,6 +51,9 @@ Definition S_kosaraju : Prop :=
   forall g gt, wf_graph g -> is_transpose g gt ->
     is_scc_partition g (fst (kosaraju g gt)) (snd (kosaraju g gt)).
 
+(** the hypothesis of [S_kosaraju] is satisfiable for every graph *)
+Definition S_transpose_ok : Prop := forall g, wf_graph g -> is_transpose g (transpose g).
+
 Definition S_tarjan : Prop :=
   forall g, wf_graph g -> is_scc_partition g (fst (tarjan g)) (snd (tarjan g)).
 
